@@ -250,6 +250,23 @@ def check_law(doc_t, law, want_model=False):
             V = canvas
             if not all(np.array_equal(x, y) for x, y in zip(a, b)) and cc.compare(a, b) is None:
                 out["mismatch"] = {"what": "not-bit-identical"}
+        elif kind == "reopen-after-move":
+            # an edited document and its saved-and-reopened copy must composite the same: read the boxes of the
+            # outermost groups only, move a layer that sits at least two groups deep, then compare
+            psd_t = cc.build(doc_t)
+            for top in psd_t:
+                if top.is_group():
+                    _ = top.bbox
+            deep = [l for l in psd_t.descendants() if not l.is_group() and l.parent is not psd_t
+                    and getattr(l.parent, "parent", psd_t) is not psd_t]
+            if not deep:
+                out["skipped"] = "no layer two groups deep"
+                return out
+            tgt = deep[law["leaf"] % len(deep)]
+            tgt.left = tgt.left + law["dx"]
+            tgt.top = tgt.top + law["dy"]
+            a, b = cc.real_composite(psd_t), cc.real_composite(cc.save_reopen(psd_t))
+            V = canvas
         else:
             raise ValueError(kind)
     except Exception as e:
@@ -373,6 +390,8 @@ def make_tasks(ctx, docs, per_doc_noop, per_doc_wrap):
         for codec in CODECS:
             tasks.append({"doc_t": doc, "law": {"kind": "compression", "codec": codec}})
         tasks.append({"doc_t": doc, "law": {"kind": "reopen"}})
+        tasks.append({"doc_t": doc, "law": {"kind": "reopen-after-move", "leaf": rng.randrange(8),
+                                            "dx": rng.choice([-3, -1, 2, 4]), "dy": rng.choice([-2, 1, 3])}})
     return tasks
 
 
@@ -397,6 +416,8 @@ def law_prefix(law):
         return f"C13/viewport/{law['class']}"
     if k == "compression":
         return f"C13/compression/{law['codec']}"
+    if law["kind"] == "reopen-after-move":
+        return "C13/save-reopen-after-edit"
     return "C13/save-reopen"
 
 
